@@ -288,7 +288,17 @@ class NetNcp(NcpEzsp):
             vals["context"] = ctx
         return [vals[k] for k in rx]
 
+    key_writes = 0
+    refuse_key_write = None      # ordinal of the link-key write to refuse with a transient error (fault injection by the check)
+
+    def _key_write_refused(self):
+        k = self.key_writes
+        self.key_writes += 1
+        return self.refuse_key_write is not None and k == self.refuse_key_write
+
     def _addOrUpdateKeyTableEntry(self, a):
+        if self._key_write_refused():
+            return [self.st("addOrUpdateKeyTableEntry", "fail")]
         eui = bytes(a["address"].serialize())
         key = bytes(a["keyData"].serialize())
         for i, (e, k) in self.key_table.items():
@@ -302,6 +312,8 @@ class NetNcp(NcpEzsp):
         return [self.st("addOrUpdateKeyTableEntry", "full")]
 
     def _importLinkKey(self, a):
+        if self._key_write_refused():
+            return [self.st("importLinkKey", "fail")]
         i = int(a["index"])
         if i >= self._key_table_size():
             return [self.st("importLinkKey", "range")]
